@@ -1089,6 +1089,9 @@ client_retransmit_through_tcp(struct evdns_request *handle)
 	handle->current_req = newreq;
 	newreq->handle = handle;
 	request_submit(newreq);
+	/* newreq was created while req still occupied its inflight slot, so it
+	 * may have gone to the waiting queue after the queue was pumped. */
+	evdns_requests_pump_waiting_queue(base);
 	return 0;
 }
 
@@ -4213,6 +4216,9 @@ submit_next:
 	handle->current_req = newreq;
 	newreq->handle = handle;
 	request_submit(newreq);
+	/* newreq was created while req still occupied its inflight slot, so it
+	 * may have gone to the waiting queue after the queue was pumped. */
+	evdns_requests_pump_waiting_queue(base);
 	return 0;
 }
 
